@@ -167,7 +167,7 @@ Resize(gi, d) ==
       cfg2 == [c.cfg EXCEPT !.cnt[gi] = @ + d]
       c2 == MkCase(E, c.fam, c.cls, cfg2, <<>>, c.attrs, TRUE, c.wrap)
       cut == Start(gi) + c.cfg.cnt[gi] * m          \* operands up to the end of the group
-  IN /\ g.ar \in {"many", "many1"} /\ c.cfg.cnt[gi] + d >= g.min /\ c.cfg.cnt[gi] + d <= 3
+  IN /\ g.ar \in {"many", "many1"} /\ c.cfg.cnt[gi] + d >= g.min /\ c.cfg.cnt[gi] + d <= MaxOf(E, g, c.cls)
      /\ c' = c2
      /\ IF d = 1
         THEN /\ addr' = SubSeq(addr, 1, cut) \o [x \in 1..m |-> Len(mem) + x] \o SubSeq(addr, cut + 1, N)
